@@ -1272,6 +1272,26 @@ func (d *driver) realwait() {
 			}
 		}
 	}
+	// the same with no back-off at all ("retry at once"): the real wait is asked to wait 0 with a
+	// context that has just ended; the call still has to give up instead of sending again
+	zero := Config{Name: "no-backoff", Enabled: true}
+	d.r.Bound("realwait_config_2", "Enabled, InitialInterval = MaxInterval = 0, no elapsed limit; context events only")
+	for _, s := range d.alpha {
+		if s.Class != Retryable || s.Hint != 0 {
+			continue
+		}
+		for _, what := range []EvWhat{CtxCancel, CtxDeadline} {
+			if d.halt || d.r.Expired() {
+				return
+			}
+			sc := script{word: []*Sym{s}, ev: Event{Kind: EvAtAttemptEnd, Pos: 1, What: what}}
+			if !d.r.Want() {
+				continue
+			}
+			rs := d.exec(sc, zero, true)
+			d.finish(sc, zero, rs)
+		}
+	}
 }
 
 // aged: the elapsed-time budget belongs to one export call, not to the exporter. One exporter
